@@ -142,7 +142,7 @@ def run_a(case):
             edited = True
         except Exception:
             edited = False
-        if edited:
+        if edited and not _set_with_nan(vs):
             again = oracle.outcome(fn, codec.decode(vs))
             if again[0] == "ok":
                 second, _ = snapshot(oracle.plain(again[1]))
@@ -253,6 +253,20 @@ def mutate_everywhere(x):
             m["MUT"] = "MUT"
         elif isinstance(m, set):
             m.add("MUT")
+
+
+def _set_with_nan(vs, depth=0):
+    """a set holding a NaN iterates in an order that depends on object identity (NaN hashes by id): two decodes of the spec
+    are two different inputs as far as order goes"""
+    if not isinstance(vs, dict) or depth > 8:
+        return False
+    if vs.get("t") in ("set", "frozenset") and len(vs.get("v") or []) > 1 and any(
+            isinstance(e, dict) and e.get("t") in ("float", "decimal") and "nan" in str(e.get("v")).lower() for e in vs["v"]):
+        return True
+    v = vs.get("v")
+    if isinstance(v, list):
+        return any(_set_with_nan(e, depth + 1) if not isinstance(e, list) else any(_set_with_nan(x, depth + 1) for x in e) for e in v)
+    return False
 
 
 def run_b(case):
